@@ -195,7 +195,28 @@ func TestVerif_C14_DualProvider(t *testing.T) {
 			}
 			switch sc.BadOption {
 			case "wan-bucket-0", "lan-bucket-0":
-				_, err := New(d, opts...)
+				// (the provider built first has already sent its start-up probe when the second one fails: the request may be the held
+				// one, and New's clean-up then waits for it like a Close call does - so New runs beside the releaser, not in front of it)
+				var nerr error
+				nc := verifsim.RTGo(func() error { _, nerr = New(d, opts...); return nil })
+				verifsim.RTSettle(10*time.Second, nc)
+				heldNew := !nc.Done()
+				close(release)
+				if !verifsim.RTWait(30*time.Second, nc) {
+					st := ""
+					if g := verifsim.GoroutinesMatching(0, "verifsim.RTGo"); len(g) > 0 {
+						st = g[0]
+					}
+					res.Fail("calls-return", "C14/dual-provider/failed-new-returns", "New (failing on the %s provider) did not return within 30 s after the network was released:\n%s", sc.BadOption[:3], st)
+					return
+				}
+				if nc.Pan != nil {
+					res.Fail("no-panic", "C14/dual-provider/panic", "panic in New: %v", nc.Pan)
+				}
+				if heldNew {
+					res.Class("failed-constructor-waits-for-held-request")
+				}
+				err := nerr
 				if err == nil {
 					res.Fail("constructor-fails", "C14/dual-provider/bucket-0-accepted", "New over a dual DHT whose %s half has bucket size 0 returned no error", sc.BadOption[:3])
 				}
